@@ -11,7 +11,7 @@ from vfy.props import c01
 LEVEL = "exploration"
 DECIDING = ["line_events"]
 MIN_DECIDED_RATIO = 0.5
-FEATURES = ("assign", "agg", "onmatch", "wide")
+FEATURES = ("assign", "agg", "onmatch", "wide", "nested-onmatch")
 WHAT = ("match", "vars", "counters")
 KNOWN_SWITCHES = ("F1", "F9b")
 RULE = (
